@@ -344,6 +344,8 @@ class Exec(Interp):
                 out.append((i, self.goal(x, frame) if goal else self.pure_eval(x, frame)))
             return out
         set_k(0)
+        if seq is not None:
+            self.ghost['_G_seq%s' % o] = seq          # the sequence a for-loop runs over: $seq<ordinal> in its invariants
         for g, e0 in spec.get('ghost_entry', {}).items():
             self.ghost[gsub(g)] = self.pure_eval(gsub(e0), fr)      # constants captured at loop entry
         for g, e0 in gi.items():
@@ -475,6 +477,8 @@ class Exec(Interp):
 
     # ----------------------------------------------------- contract expressions
     def pure_eval(self, text, fr, extra=None):
+        if text.startswith('@check '):
+            text = text[len('@check '):]
         node = _parse_expr(text)
         sub = Frame(extra or {}, fr)
         was = self.pure
